@@ -811,6 +811,46 @@ int _vnacal_new_add_common(vnacal_new_add_arguments_t vnaa)
     }
 
     /*
+     * If measurement errors were given and the type is T16 or U16,
+     * the S matrix must be complete.  Test this before the parameters
+     * of the standard are entered into the vnacal_new_t, so that a
+     * refused standard leaves nothing behind: work out which cells
+     * will be known from the cells given, from the zeros filled in
+     * for a diagonal S matrix and from those between connected and
+     * unconnected ports.
+     */
+    if (vnp->vn_m_error_vector != NULL &&
+	    (VL_TYPE(vlp) == VNACAL_T16 || VL_TYPE(vlp) == VNACAL_U16)) {
+	bool s_known[full_s_rows * full_s_columns];
+
+	(void)memset((void *)s_known, 0, sizeof(s_known));
+	for (int s_cell = 0; s_cell < s_cells; ++s_cell) {
+	    s_known[s_cell_map[s_cell]] = true;
+	}
+	for (int r = 0; r < full_s_rows; ++r) {
+	    for (int c = 0; c < full_s_columns; ++c) {
+		const int cell = r * full_s_columns + c;
+
+		if (vnaa.vnaa_s_is_diagonal && r != c &&
+			port_connected[r] && port_connected[c]) {
+		    s_known[cell] = true;
+		}
+		if (s_port_map != NULL &&
+			port_connected[r] != port_connected[c]) {
+		    s_known[cell] = true;
+		}
+	    }
+	}
+	for (int s_cell = 0; s_cell < full_s_rows * full_s_columns; ++s_cell) {
+	    if (!s_known[s_cell]) {
+		_vnacal_new_err_need_full_s(vnp, function,
+			vnp->vn_measurement_count + 1, s_cell);
+		goto out;
+	    }
+	}
+    }
+
+    /*
      * Construct the vnacal_new_measurement_t S matrix.
      */
     if ((vnmp->vnm_s_matrix = full_s_matrix =
@@ -888,20 +928,6 @@ int _vnacal_new_add_common(vnacal_new_add_arguments_t vnaa)
 	}
     }
 
-    /*
-     * If measurement errors were given and the type is T16 or U16,
-     * the S matrix must be complete.
-     */
-    if (vnp->vn_m_error_vector != NULL &&
-	    (VL_TYPE(vlp) == VNACAL_T16 || VL_TYPE(vlp) == VNACAL_U16)) {
-	for (int s_cell = 0; s_cell < full_s_rows * full_s_columns; ++s_cell) {
-	    if (full_s_matrix[s_cell] == NULL) {
-		_vnacal_new_err_need_full_s(vnp, function,
-			vnp->vn_measurement_count + 1, s_cell);
-		goto out;
-	    }
-	}
-    }
 
     /*
      * For all calibration types except T16 and U16 that handle leakage
